@@ -137,19 +137,23 @@ namespace
         return tr->asyncWrite(peer->fd(), RawBuffer(ws.data.data(), ws.data.size()));
     }
 
-    void chain_from(const std::shared_ptr<Plan>& plan, const std::shared_ptr<Tcp::Peer>& peer, Tcp::Transport* tr, size_t i)
+    // `skip`: an index that somebody else issues (the chain steps over it)
+    void chain_from(const std::shared_ptr<Plan>& plan, const std::shared_ptr<Tcp::Peer>& peer, Tcp::Transport* tr, size_t i, size_t skip = size_t(-1))
     {
+        if (i == skip)
+            ++i;
         if (i >= plan->writes.size())
             return;
         WriteSpec* p = &plan->writes[i];
+        size_t next  = i + 1 == skip ? i + 2 : i + 1;
         issue_one(peer, tr, *p).then(
-            [p, plan, peer, tr, i](ssize_t n) {
+            [p, plan, peer, tr, next](ssize_t n) {
                 p->value              = n;
                 p->accepted_at_fulfil = g_pol.accepted.load();
                 ++p->fulfilled;
-                if (i + 1 < plan->writes.size())
+                if (next < plan->writes.size())
                 {
-                    chain_from(plan, peer, tr, i + 1);
+                    chain_from(plan, peer, tr, next);
                     tr->flush();
                 }
             },
@@ -201,7 +205,24 @@ namespace
                 // from wherever it is called.  Bytes, order and promises must be what they are for any other issuer.
                 if (plan->chained)
                 {
-                    chain_from(plan, peer, tr, 0);
+                    // with an odd number of writes (>= 3) the first TWO are issued here, without a flush between
+                    // them, and only the first one's continuation carries the chain on (write 2, flush, ...): a
+                    // write completes, and its observer writes and flushes, while another write of the same
+                    // connection is still pending
+                    if (plan->writes.size() >= 3 && plan->writes.size() % 2 == 1)
+                    {
+                        WriteSpec* p1 = &plan->writes[1];
+                        chain_from(plan, peer, tr, 0, /*skip*/ 1);
+                        issue_one(peer, tr, *p1).then(
+                            [p1, plan](ssize_t n) {
+                                p1->value              = n;
+                                p1->accepted_at_fulfil = g_pol.accepted.load();
+                                ++p1->fulfilled;
+                            },
+                            [p1, plan](std::exception_ptr) { ++p1->rejected; });
+                    }
+                    else
+                        chain_from(plan, peer, tr, 0);
                     return;
                 }
                 for (auto& ws : plan->writes)
